@@ -149,6 +149,8 @@ def iter_schema_namespaces(root: ElementType,
     for e in root.iter():
         if e is elem:
             return
+        elif callable(e.tag):
+            continue  # a comment or a processing instruction
         elif e.tag[0] == '{':
             yield get_namespace(e.tag)
 
